@@ -288,8 +288,8 @@ var acceptedUnbound = map[string]string{
 	"fmt.Printf":                                               "handshake line print; followed by Sync; cannot be retried",
 	"github.com/oklog/run.Group.Run":                           "the actors' errors are handled by their interrupt functions",
 	"io.Copy":                                                  "drain to EOF; the error is the termination signal itself",
-	modPath + ".gRPCBrokerClientImpl.StartStream":              "goroutine body; a stream error closes the broker, which Recv observes",
-	"strconv.ParseBool":                                        "unset or malformed flag means false",
+	modPath + ".gRPCBrokerClientImpl.StartStream": "goroutine body; a stream error closes the broker, which Recv observes",
+	"strconv.ParseBool":                           "unset or malformed flag means false",
 }
 
 // acceptedL1 lists bound error values that are deliberately not read on some
